@@ -13,7 +13,7 @@ from trie.utils.db import ScratchDB
 
 from ..core import HarnessError, Stats, Violation, deep, hx, unhx
 from ..hworld import in_handler
-from ..simdb import SimDB
+from ..simdb import SimDB, make_store
 
 ID = "C17"
 LEVEL = "fault_enumeration"
@@ -88,7 +88,7 @@ def _proc(scratch, do_deletes):
 class World:
     def __init__(self, cfg, st):
         self.st = st
-        self.db = SimDB({unhx(k): unhx(v) for k, v in cfg["initial"]})
+        self.db = make_store(cfg, {unhx(k): unhx(v) for k, v in cfg["initial"]})
         self.scratch = ScratchDB(self.db)
         self.wrapped = dict(self.db.raw())
         self.buffer = {}
@@ -384,7 +384,7 @@ def generate(rng):
     ops = gen_ops(rng, keys, vals, rng.choice(deep([0, 1, 2, 3, 4, 6, 8, 12], [1, 2, 4, 8, 12, 20, 30])))
     suffix = [{"op": "settle", "keys": [hx(k) for k in keys], "dd": int(rng.random() < 0.5)}]
     suffix += [c for c in gen_ops(rng, keys, vals, 3) if c["op"] in ("read", "contains")]
-    base = {"cfg": {"initial": initial}, "prefix": prefix, "dd": dd, "ops": ops, "suffix": suffix}
+    base = {"cfg": {"initial": initial, "store": rng.choice(["min", "min", "dict"])}, "prefix": prefix, "dd": dd, "ops": ops, "suffix": suffix}
     # the client may be inside an except clause when it makes a call or leaves the block
     p_hdl = rng.choice([0.0, 0.0, 0.2, 0.5])
     if p_hdl:
